@@ -12,13 +12,22 @@ pointers whose target is cut off / beyond the end / an unterminated string / nul
 stream fault, parses started too close to the end, parses of truncated bytes. The second parse (value, stream position
 before and after, outcome of dereferencing its pointers) must equal what it is without the failed operations, and a fresh
 run afterwards must equal the first one.
+
+Named array lengths (u1, harness/u1_names.py, `named_lengths`): definitions in which an array length is evaluated through the field
+context under unusual-but-legal names - a member or constant called EOF (which makes `d[EOF]` an array of definite length), EOF
+look-alikes, names of constants / enum members / types, Python keywords, names of the generated readers' locals - as count member,
+constant (defined before / after the structure), both, bit-field count, in the outer structure only, with the array last / followed /
+nested / element of an array / either dimension of a 2-d array, behind NAME, NAME * 1, (NAME), NAME & 7, ...; inputs are valid by
+construction (every byte carries data; value, extent and data mask from the reference parser harness/refimpl.py); every cut point and
+every read call x {premature end, exception}: a cut at or before the last data-carrying byte must raise, any returned value must be
+the one of the complete input, an injected exception must surface, no residue.
 """
 from __future__ import annotations
 
 import io
 import itertools
 
-from .. import defs, impl, refimpl, s3_residue
+from .. import defs, impl, refimpl, s3_residue, u1_names
 from ..common import Result, mkrng
 from ..structprops import Engine, load, real_parse, rand_bytes, has_eof, has_union
 
@@ -56,13 +65,67 @@ def count_reads(T, data):
     return s.calls
 
 
+def cuts_and_faults(eng, res, L, tree, data, full, sigs, *, endian, align, compiled, last_data=None):
+    """every cut point and every read call x {premature end, exception} for one accepted input; `full` = real_parse of the
+    complete input.  last_data (optional): index of the last data-carrying byte according to the reference parser - then a cut
+    at or before it must raise, whatever would be returned (the property's first clause, stated with the reference's extent)."""
+    T = L.T
+    end = full[2]
+    eofarr = has_eof(tree)
+    # ---- every cut point
+    for k in range(0, min(len(data), end) + 1):
+        cut = data[:k]
+        w, _ = real_parse(T, cut)
+        res.count((L.text, endian, align, compiled, data, "cut", k), k < end)
+        cd = eng.case_data(L, data=data, cut=k)
+        if w[0] == "ok":
+            if eofarr:
+                res.feat("eof-array: shortened input returns a shorter value (aside by the property)")
+            elif not impl.same_val(full[1], w[1], ignore_union_buf=True) or w[2] != end:
+                eng.report(f"input cut at {k} of {end} returns {str(w[1])[:200]} (end {w[2]}); the complete input gives {str(full[1])[:200]} (end {end})", cd, sigs)
+            else:
+                res.feat("cut-in-tail-padding: same value")
+        elif w[1] != "EOFError":
+            eng.report(f"input cut at {k} of {end} raises {w[1]}, not EOFError", cd, sigs)
+        if w[0] == "ok" and last_data is not None and k <= last_data and not eofarr:
+            eng.report(f"input cut at {k}, at or before its last data-carrying byte (index {last_data}), returns a value: {str(w[1])[:200]}", cd, sigs)
+        if not compiled and "F23" not in sigs and not has_union(tree):
+            eng.model_read(L, cut, 0, w, f"cut at {k}", sigs)
+    # ---- stream faults at every read call
+    ncalls = count_reads(T, data)
+    for at in range(ncalls):
+        for mode, keep in (("short", 0), ("short", 1), ("raise", 0)):
+            s = Faulty(data, at, mode, keep)
+            try:
+                obj = T(s)
+                got = ("ok", impl.canon(obj), s.tell())
+            except Exception as e:  # noqa: BLE001
+                got = ("err", type(e).__name__)
+            res.count((L.text, endian, align, compiled, data, mode, at, keep), True)
+            res.feat("fault:" + mode)
+            cd = eng.case_data(L, data=data, fault=f"{mode}@read#{at} keep={keep}")
+            if got[0] == "ok":
+                if mode == "raise":
+                    eng.report("the stream raised but parsing returned a value", cd, sigs)
+                elif not eofarr and not impl.same_val(full[1], got[1], ignore_union_buf=True):
+                    eng.report(f"the stream ended early at read #{at} but parsing returned {str(got[1])[:200]} instead of {str(full[1])[:200]}", cd, sigs)
+            elif mode == "short" and got[1] not in ("EOFError",):
+                eng.report(f"premature end at read #{at} raises {got[1]}, not EOFError", cd, sigs)
+            # no residue
+            again, _ = real_parse(T, data)
+            if again[0] != "ok" or not impl.same_val(full[1], again[1]) or again[2] != end:
+                eng.report("after a failed parse the same types parse the good input differently (residue)", cd, sigs)
+
+
 def run(env) -> Result:
     res = Result()
     res.rule = ("seeded random definition trees x {<,>} x {packed, aligned} x {interpreted, compiled}; for an accepted input: every cut point "
                 "(the parse must raise EOFError or return the value of the complete input) and every read-call index x {premature end with 0 or "
                 "half of the requested bytes, OSError}; after each failure a known-good input is parsed again with the same types. Residue histories: "
                 "two records with pointers on one stream, failing dereferences (cut-off / unterminated / null targets, injected faults) and failing "
-                "parses between the two parses, second parse compared with the run without them. distinct = "
+                "parses between the two parses, second parse compared with the run without them. Named array lengths: count members / constants "
+                "called EOF, look-alikes, keywords, reader locals in every position, valid-by-construction inputs with the reference parser's data "
+                "mask, every cut and every faulted read call. distinct = "
                 "(definition, config, input, cut or fault); non-trivial = cut strictly inside the encoded extent")
     eng = Engine(env, res, "C08")
     rnd = mkrng(env["seed"], "c08")
@@ -89,54 +152,59 @@ def run(env) -> Result:
                 continue
             for k, v in defs.features(tree).items():
                 res.feat(k, v)
-            end = full[2]
-            eofarr = has_eof(tree)
-            # ---- every cut point
-            for k in range(0, min(len(data), end) + 1):
-                cut = data[:k]
-                w, _ = real_parse(T, cut)
-                res.count((L.text, endian, align, compiled, data, "cut", k), k < end)
-                cd = eng.case_data(L, data=data, cut=k)
-                if w[0] == "ok":
-                    if eofarr:
-                        res.feat("eof-array: shortened input returns a shorter value (aside by the property)")
-                    elif not impl.same_val(full[1], w[1], ignore_union_buf=True) or w[2] != end:
-                        eng.report(f"input cut at {k} of {end} returns {str(w[1])[:200]} (end {w[2]}); the complete input gives {str(full[1])[:200]} (end {end})", cd, sigs)
-                    else:
-                        res.feat("cut-in-tail-padding: same value")
-                elif w[1] != "EOFError":
-                    eng.report(f"input cut at {k} of {end} raises {w[1]}, not EOFError", cd, sigs)
-                if not compiled and "F23" not in sigs and not has_union(tree):
-                    eng.model_read(L, cut, 0, w, f"cut at {k}", sigs)
-            # ---- stream faults at every read call
-            ncalls = count_reads(T, data)
-            for at in range(ncalls):
-                for mode, keep in (("short", 0), ("short", 1), ("raise", 0)):
-                    s = Faulty(data, at, mode, keep)
-                    try:
-                        obj = T(s)
-                        got = ("ok", impl.canon(obj), s.tell())
-                    except Exception as e:  # noqa: BLE001
-                        got = ("err", type(e).__name__)
-                    res.count((L.text, endian, align, compiled, data, mode, at, keep), True)
-                    res.feat("fault:" + mode)
-                    cd = eng.case_data(L, data=data, fault=f"{mode}@read#{at} keep={keep}")
-                    if got[0] == "ok":
-                        if mode == "raise":
-                            eng.report("the stream raised but parsing returned a value", cd, sigs)
-                        elif not eofarr and not impl.same_val(full[1], got[1], ignore_union_buf=True):
-                            eng.report(f"the stream ended early at read #{at} but parsing returned {str(got[1])[:200]} instead of {str(full[1])[:200]}", cd, sigs)
-                    elif mode == "short" and got[1] not in ("EOFError",):
-                        eng.report(f"premature end at read #{at} raises {got[1]}, not EOFError", cd, sigs)
-                    # no residue
-                    again, _ = real_parse(T, data)
-                    if again[0] != "ok" or not impl.same_val(full[1], again[1]) or again[2] != end:
-                        eng.report("after a failed parse the same types parse the good input differently (residue)", cd, sigs)
+            cuts_and_faults(eng, res, L, tree, data, full, sigs, endian=endian, align=align, compiled=compiled)
         if len(eng.lines) > 4000:
             eng.flush()
     eng.flush()
+    named_lengths(env, eng, res, mkrng(env["seed"], "c08-named-lengths"))
     run_residue(env, eng, res, mkrng(env["seed"], "c08-residue"))
     return res
+
+
+def named_lengths(env, eng, res, rnd):
+    """arrays whose length is evaluated through the field context under unusual-but-legal names (harness/u1_names.py): a member
+    or constant called EOF (and look-alikes, names of constants / enum members / types, Python keywords, names of the generated
+    readers' locals) in every position; valid-by-construction inputs, every cut, every read call faulted"""
+    tier = env["tier"]
+    shapes = list(dict.fromkeys(u1_names.SHAPES))
+    for it in range(170 if tier == "quick" else 4000):
+        # the first rounds walk through every shape with the name EOF itself behind the bare expression, then random plans
+        if it < len(shapes):
+            pl = u1_names.plan(rnd, shapes[it], name="EOF", bare=True)
+        else:
+            pl = u1_names.plan(rnd, shapes[it % len(shapes)] if it < 3 * len(shapes) else None)
+        configs = list(itertools.product("<>", (False, True), (False, True)))
+        for endian, align, compiled in (configs if tier != "quick" else rnd.sample(configs, 3)):
+            try:
+                L = u1_names.View(pl, endian=endian, align=align, compiled=compiled, pointer=rnd.choice(["uint64", "uint32", "uint16"]))
+            except Exception as e:  # noqa: BLE001
+                res.feat(f"named-length:definition-rejected:{type(e).__name__}")
+                continue
+            T, tree = L.T, pl["tree"]
+            cfg = L.cfg()
+            res.feat("named-length:shape:" + pl["shape"])
+            res.feat("named-length:name:" + ("EOF" if pl["name"] == "EOF" else "EOF look-alike" if pl["name"] in u1_names.NAMES_NEAR else
+                                             "constant / enum member / type name" if pl["name"] in u1_names.NAMES_KNOWN else "Python keyword or reader local"))
+            if pl["expr"] == pl["name"]:
+                res.feat("named-length:the expression is the bare name")
+            for _i in range(2):
+                data = u1_names.make_input(rnd, pl, cfg)
+                full, _ = real_parse(T, data)
+                if full[0] != "ok":
+                    res.feat("named-length:input-rejected:" + full[1])
+                    continue
+                ref = u1_names.reference(pl, data, cfg)
+                last_data = None
+                if ref is not None and impl.same_val(full[1], ref[0]) and full[2] == ref[1]:
+                    res.feat("named-length:inputs (value and extent as the reference parser gives them)")
+                    last_data = ref[2]
+                else:
+                    # which length an expression denotes is C07's business; here only: cuts and faults never fabricate
+                    res.feat("named-length:inputs (value differs from the reference: checked against the complete parse only)")
+                cuts_and_faults(eng, res, L, tree, data, full, [], endian=endian, align=align, compiled=compiled, last_data=last_data)
+        if len(eng.lines) > 4000:
+            eng.flush()
+    eng.flush()
 
 
 def run_residue(env, eng, res, rnd):
@@ -177,6 +245,15 @@ def run_residue(env, eng, res, rnd):
             if not nptr:
                 continue
             res.feat(f"residue-case:{src}")
+            # (u1) pointer targets cut off by the end of the stream: the dereference raises or returns the complete target's value
+            filler = bytes([0x41, 0x80, 0x01, 0xFF] * 10) + bytes(24)
+            for path, addr, got, want, tend in s3_residue.cut_targets(T, stream, filler):
+                res.count((L.text, endian, align, compiled, pointer, stream, "cut-target", path), True)
+                res.feat("cut-target:dereference " + ("raises" if got[0] == "err" else "returns the complete value (only padding cut off)" if impl.same_val(got[1], want) else "returns another value"))
+                if got[0] == "ok" and not impl.same_val(got[1], want):
+                    eng.report(f"the target of {path} at {addr} is cut off by the end of the stream ({len(stream)} bytes; the complete target ends at {tend}) "
+                               f"but dereferencing returns {str(got[1])[:200]}; the complete target is {str(want)[:200]}",
+                               eng.case_data(L, stream=stream, pointer_path=path, address=addr, filler=filler), sigs)
             for _k in range(6 if tier == "quick" else 12):
                 ops = s3_residue.make_ops(rnd, nptr, len(stream), l1)
                 try:
